@@ -12,6 +12,7 @@ import (
 	"sort"
 	"strings"
 	"sync"
+	"sync/atomic"
 	"time"
 )
 
@@ -26,6 +27,11 @@ type OblResult struct {
 }
 
 // OK reports whether the obligation is discharged (or, for a cover, witnessed).
+// lastResortUsed counts the goals of this process that took the last, longest solver round.
+var lastResortUsed int32
+
+const lastResortMax = 6
+
 func (r *OblResult) OK() bool {
 	if r.Obl.Cover {
 		return r.Status == "sat" || r.Status == "unknown" || r.Status == "timeout"
@@ -248,12 +254,19 @@ func Solve(tr *TargetResult, opts *SolveOpts) []*OblResult {
 			// A timeout is retried once with four times the budget: by then the fast
 			// obligations have left the machine, so a goal that is merely slow under load is
 			// still discharged; only a goal no solver decides in that time stays undischarged.
-			budgets := []int{opts.TimeoutS, 4 * opts.TimeoutS}
+			// A goal that still times out gets a last attempt with sixteen times the budget, for
+			// the case that the whole machine is overloaded by other processes (several checks
+			// started at once). At most lastResortMax goals per run take it, so a change that
+			// makes many goals undecidable does not hold the check up for long.
+			budgets := []int{opts.TimeoutS, 4 * opts.TimeoutS, 16 * opts.TimeoutS}
 			if o.Cover {
 				budgets = budgets[:1]
 			}
 			for round, budget := range budgets {
 				if round > 0 && best.status != "timeout" && best.status != "unknown" {
+					break
+				}
+				if round == 2 && atomic.AddInt32(&lastResortUsed, 1) > lastResortMax {
 					break
 				}
 				port := solversFor(base)
